@@ -81,7 +81,17 @@ package model
 //@ inv *MatchFieldAttribute: self.MatchKeyField != nil && len(self.MatchPairs) >= 1
 //@ inv *LengthFieldAttribute: self.TragetField != nil
 
+//@ pred resolved(m *BinaryModel, f *Field) := (typeis(f.Attr, *ObjectFieldAttribute) ==> unbox(f.Attr, *ObjectFieldAttribute).RefPacket != nil) && (typeis(f.Attr, *MatchFieldAttribute) ==> forall(k, 0, len(unbox(f.Attr, *MatchFieldAttribute).MatchPairs), haskey(m.PacketsMap, unbox(f.Attr, *MatchFieldAttribute).MatchPairs[k].Value)))
+
 //@ func (*BinaryModel).resolveFields
+//@   ensures m.PacketsMap == old(m.PacketsMap)
+//@   loop 0 invariant m.PacketsMap == old(m.PacketsMap)
+//@   loop 1 invariant m.PacketsMap == old(m.PacketsMap)
+//@   ensures [C12:D6-resolved-or-reported] len(m.SyntaxErrors) >= old(len(m.SyntaxErrors)) && (len(m.SyntaxErrors) == old(len(m.SyntaxErrors)) ==> forall(i, 0, len(fields), resolved(m, fields[i])))
+//@   loop 0 invariant len(m.SyntaxErrors) >= old(len(m.SyntaxErrors))
+//@   loop 0 invariant len(m.SyntaxErrors) == old(len(m.SyntaxErrors)) ==> forall(i, 0, rangeindex + 1, typeis(fields[i].Attr, *ObjectFieldAttribute) ==> unbox(fields[i].Attr, *ObjectFieldAttribute).RefPacket != nil)
+//@   loop 0 invariant len(m.SyntaxErrors) == old(len(m.SyntaxErrors)) ==> forall(i, 0, rangeindex + 1, typeis(fields[i].Attr, *MatchFieldAttribute) ==> forall(k, 0, len(unbox(fields[i].Attr, *MatchFieldAttribute).MatchPairs), haskey(m.PacketsMap, unbox(fields[i].Attr, *MatchFieldAttribute).MatchPairs[k].Value)))
+//@   loop 1 invariant len(m.SyntaxErrors) >= entry(len(m.SyntaxErrors)) && (len(m.SyntaxErrors) == entry(len(m.SyntaxErrors)) ==> forall(k, 0, rangeindex + 1, haskey(m.PacketsMap, mf.MatchPairs[k].Value)))
 //@   terminates-assumed inline object declarations are finitely nested (they mirror the finite parse tree); recursion descends only into IsIner packets
 //@ func (*BinaryModel).containsCycle
 //@   requires p != nil && state != nil
